@@ -71,6 +71,8 @@ def run(ctx):
     ctx.rule("R11.2", "KEYWORDS: true/false/nil/inf/now/immediately map to the same tag in checker and scanner")
     ctx.rule("R11.4", "SSCANF-ATOMIC: when the scanner decides an optional part by a sscanf with two or more assigning conversions (its %n result is tested afterwards), the converted values are read only under that test - a partial match must not leak into the result")
     ctx.rule("R11.5", "TYPES-MATCH: the element-type compatibility relation used by checker and scanner (types_match / arraytypes_match), evaluated over all tag pairs, is reflexive and symmetric and relates T with F")
+    ctx.rule("R11.6", "ARGS-BEFORE: wherever a list of values is scanned (top level and inside `[...]`), the look-behind count handed to rtosc_scan_arg_val is the number of argument values written so far (a variable advanced by next_arg_offset), not a token counter")
+    ctx.rule("R11.7", "LOOKBEHIND-TIGHT: a look-behind access arg[-k] is guarded by exactly `at least k values before` (args_before > k-1): weaker reads before the list, stronger ignores a neighbour the checker takes into account")
     ctx.rule("R11.3", "COMMENTS: the four entry loops skip white space and comments introduced by '%' up to the end of the line")
     chk = u.function("rtosc_skip_next_printed_arg")
     scn = u.function("rtosc_scan_arg_val")
@@ -166,6 +168,86 @@ def run(ctx):
         tf = tab[("T", "F")] and tab[("F", "T")]
         ctx.ob("R11.5", q, not asym and not irr and bool(tf), site=A.where(fq), detail={"pairs": len(tab), "asymmetric": ["%s/%s" % k for k in asym[:8]], "irreflexive": irr, "T~F": bool(tf)},
                what="%s is not a symmetric, reflexive relation with T~F: asymmetric on %s" % (q, ["%s/%s" % k for k in asym[:4]]))
+
+    # ---- R11.7
+    ab = [p_ for p_ in u.params(scn) if p_.get("name") == "args_before"]
+    ctx.require(len(ab) == 1, "rtosc_scan_arg_val: parameter args_before not found")
+    abid = ab[0]["id"]
+    n7 = 0
+
+    def conjuncts(e):
+        e = A.strip_casts(e)
+        if e.get("kind") == "BinaryOperator" and e.get("opcode") == "&&":
+            return conjuncts(A.kids(e)[0]) + conjuncts(A.kids(e)[1])
+        return [e]
+
+    def lookbehind_depths(e):
+        out = []
+        for y in A.walk(e):
+            if y.get("kind") == "ArraySubscriptExpr":
+                k_ = A.int_literal(A.kids(y)[1])
+                if k_ is not None and k_ < 0 and A.ref_name(A.kids(y)[0]) == "arg":
+                    out.append(-k_)
+            if y.get("kind") == "BinaryOperator" and y.get("opcode") == "-" and A.ref_name(A.kids(y)[0]) == "arg":
+                k_ = A.int_literal(A.kids(y)[1])
+                if k_ is not None and k_ > 0:
+                    out.append(k_)
+        return out
+    for x in A.walk(u.body(scn)):
+        if x.get("kind") != "ConditionalOperator":
+            continue
+        cj = conjuncts(A.kids(x)[0])
+        bound = None
+        for c_ in cj:
+            if c_.get("kind") == "BinaryOperator" and c_.get("opcode") in (">", ">=") and A.ref_id(A.kids(c_)[0]) == abid:
+                v = A.int_literal(A.kids(c_)[1])
+                if v is not None:
+                    bound = v + 1 if c_.get("opcode") == ">" else v
+        if bound is None:
+            continue
+        depths = [d_ for c_ in cj for d_ in lookbehind_depths(c_)]
+        if not depths:
+            continue
+        n7 += 1
+        need = max(depths)
+        ctx.ob("R11.7", "look-behind %d" % need, bound == need, site=A.where(x), detail={"guard_requires_values_before": bound, "deepest_access": "arg[-%d]" % need},
+               key="R11.7:arg[-%d]" % need,
+               what="arg[-%d] is read when at least %d values precede; exactly %d are needed" % (need, bound, need))
+    ctx.require(n7 >= 2, "R11.7: guarded look-behind accesses not found (%d)" % n7)
+
+    # ---- R11.6
+    n6 = 0
+    for q in ("rtosc_scan_arg_vals", "rtosc_scan_arg_val"):
+        fq = u.function(q)
+        for c in A.calls_in(u.body(fq), "rtosc_scan_arg_val"):
+            a = A.kids(c)[1:]
+            if len(a) < 7 or A.int_literal(a[6]) != 1:
+                continue          # follow_ellipsis == 0: a single value is scanned, no look-behind
+            n6 += 1
+            vid = A.ref_id(a[5])
+            how = []
+            ok6 = False
+            if vid is not None:
+                ups = []
+                for x in A.walk(u.body(fq)):
+                    if x.get("kind") == "CompoundAssignOperator" and x.get("opcode") == "+=" and A.ref_id(A.kids(x)[0]) == vid:
+                        r_ = A.strip_casts(A.kids(x)[1])
+                        src_ok = False
+                        if r_.get("kind") == "CallExpr" and A.callee_name(r_) == "next_arg_offset":
+                            src_ok = True
+                        elif r_.get("kind") == "DeclRefExpr":
+                            dd = u.by_id.get(r_["referencedDecl"]["id"])
+                            init = A.strip_casts(A.kids(dd)[-1]) if dd is not None and A.kids(dd) else None
+                            src_ok = init is not None and init.get("kind") == "CallExpr" and A.callee_name(init) == "next_arg_offset"
+                        ups.append(("+= next_arg_offset" if src_ok else "+= " + A.src(r_), src_ok))
+                    elif x.get("kind") == "UnaryOperator" and x.get("opcode") in ("++", "--") and A.ref_id(A.kids(x)[0]) == vid:
+                        ups.append((x.get("opcode"), False))
+                how = [h for h, _ in ups]
+                ok6 = bool(ups) and all(k_ for _, k_ in ups)
+            ctx.ob("R11.6", "%s: args_before `%s`" % (q, A.src(a[5])), ok6, site=A.where(c), detail={"argument": A.src(a[5]), "updated_by": how},
+                   key="R11.6:%s" % q,
+                   what="%s hands rtosc_scan_arg_val the look-behind count `%s`, which is updated by %s - not the number of argument values written" % (q, A.src(a[5]), how))
+    ctx.require(n6 >= 2, "R11.6: list-context calls of rtosc_scan_arg_val not found")
 
     # ---- R11.4
     n4 = 0
